@@ -544,7 +544,7 @@ def run_check(pid: str, tier: str, master: int) -> int:
         by_key.setdefault(key, []).append((msg, scn, hist))
     strata_by_name = {s.name: s for s in strata}
     lifetime_state: List[str] = []
-    mini_deadline = time.time() + float(os.environ.get("VERIF_MINIMISE_S", "900"))
+    mini_deadline = time.time() + float(os.environ.get("VERIF_MINIMISE_S", "300"))
     new_violation = False
     cross_run_state: List[str] = []
     known_matched = []
@@ -576,7 +576,7 @@ def run_check(pid: str, tier: str, master: int) -> int:
         if start is None:
             msg, scn, hist = cands[0]
             start = scn
-        small = minimise(prop, start, key, wall_cap=max(20.0, min(240.0, mini_deadline - time.time())))
+        small = minimise(prop, start, key, wall_cap=max(15.0, min(90.0, mini_deadline - time.time())))
         if "prelude" in small:
             small["note"] = ("the violation depends on state the code under test keeps for the lifetime of a process: "
                              "the prelude holds the scenarios the same process had executed before")
